@@ -165,23 +165,49 @@ def table(ctx, n):
         lines.append(json.dumps({"op": "mgr", "max": mx}))
         hosts = ["h%d" % i for i in range(r.choice([2, 4, 8]))]
         for _ in range(r.randrange(3, 40)):
-            lines.append(json.dumps({"op": "get", "host": r.choice(hosts)}))
+            k = r.random()
+            # a request waits on its host's bucket, and later reports its outcome for that host (the bucket may have been evicted meanwhile)
+            lines.append(json.dumps({"op": "get", "host": r.choice(hosts)} if k < 0.6 else
+                                    {"op": "mfail", "host": r.choice(hosts), "code": r.choice([503, 429, 500])} if k < 0.8 else
+                                    {"op": "msucc", "host": r.choice(hosts)}))
+        if mx >= 2:
+            # the host in flight is the one least used: every other host was asked twice, then one more host arrives and evicts it, then it answers
+            lines.append(json.dumps({"op": "mgr", "max": mx}))
+            for i in range(mx - 1):
+                lines += [json.dumps({"op": "get", "host": "busy%d" % i})] * 2
+            lines.append(json.dumps({"op": "get", "host": "slow"}))
+            lines.append(json.dumps({"op": "get", "host": "newcomer"}))
+            lines.append(json.dumps({"op": r.choice(["mfail", "msucc"]), "host": "slow", "code": 503}))
+            lines.append(json.dumps({"op": "get", "host": "another"}))
         lines.append(json.dumps({"op": "hosts"}))
     impl, model = ctx.pair("rl", lines)
     mx = 0
+    cur = []
     for l, a, b in zip(lines, impl, model):
         o = json.loads(l)
+        cur.append(o)
         if o["op"] == "mgr":
             mx = o["max"]
+            cur = [o]
             ctx.case("tbl" + l, True)
-        elif o["op"] == "get":
+        elif o["op"] in ("get", "mfail", "msucc"):
             size = int(a.split("=")[1])
             ctx.count("table-accesses")
             if size > max(mx, 1):
-                ctx.violation("limiter table holds %d buckets, bound is %d" % (size, max(mx, 1)), {"domain": "rl", "line": o})
+                ctx.violation("limiter table holds %d buckets, bound is %d, after %s" % (size, max(mx, 1), [(x["op"], x.get("host")) for x in cur[-6:]]),
+                              {"domain": "rl-table", "ops": list(cur)})
             if a != b:
                 ctx.disagree(o, a, b)
         # "hosts": which bucket the LFU eviction picks among equal minima depends on Go's map order: sizes only
+
+
+def replay_table(ctx, rp):
+    rc, impl, err = core.run_impl("rl", [json.dumps(o) for o in rp["ops"]], timeout=120)
+    mx = max(rp["ops"][0].get("max", 1), 1)
+    for o, a in zip(rp["ops"], impl):
+        if o["op"] in ("get", "mfail", "msucc") and int(a.split("=")[1]) > mx:
+            ctx.violation("replay: limiter table holds %s buckets, bound is %d" % (a.split("=")[1], mx), rp)
+            return
 
 
 def firstcontact(ctx, n):
@@ -293,6 +319,8 @@ def run(ctx):
 
 
 def replay(ctx, doc):
+    if doc.get("replay", doc).get("domain") == "rl-table":
+        return replay_table(ctx, doc.get("replay", doc))
     rp = doc.get("replay", doc)
     if "firstcontact" in rp:
         firstcontact(ctx, 3)
